@@ -80,6 +80,28 @@ def check(rep, tier, seed):
     mo_l, outs_l = compare_cases(rep, "npy-writer-header-length-limit", lim, nontrivial=lambda c, m: True,
                                  classify=lambda c, m, i: "npy-writer:header-length-limit", spec=True)
     rep.coverage["header_length_limit"] = {"accepted": sum(1 for m in mo_l if m != "ERR"), "refused": sum(1 for m in mo_l if m == "ERR")}
+    # the binary writing npy to a file (-o) - a fresh path and a path that already holds a longer file - and to stdout: the
+    # bytes must be exactly those of the library writer (which are compared with the model above and loaded by numpy below)
+    from common import run_cli_many, text_spectrum
+    oj, ometa = [], []
+    for k, sh in enumerate([[3], [2, 3], [4, 1, 2], [9, 7]]):
+        ivals = [str(rng.randrange(0, 1000)) for _ in range(elements(sh))]
+        txt = text_spectrum(sh, ivals)
+        fresh, stale = os.path.join(d, "o_fresh_%d.npy" % k), os.path.join(d, "o_stale_%d.npy" % k)
+        open(stale, "wb").write(b"\x93NUMPY" + bytes(5000))
+        oj += [(["view", "-O", "npy"], txt), (["view", "-O", "npy", "-o", fresh], txt), (["view", "-O", "npy", "-o", stale], txt), (["fold", "-o", stale + "t"], txt)]
+        ometa.append((sh, ivals, fresh, stale))
+    ores = run_cli_many(oj)
+    import struct as _st
+    want_l = run_impl(["npyw %s %s" % (fmt(sh), ",".join("b%016x" % _st.unpack("<Q", _st.pack("<d", float(v)))[0] for v in iv)) for sh, iv, _, _ in ometa])
+    for k, ((sh, iv, fresh, stale), want) in enumerate(zip(ometa, want_l)):
+        so = ores[4 * k][1]
+        for name, got in (("stdout", so), ("-o fresh file", open(fresh, "rb").read() if os.path.exists(fresh) else b""), ("-o onto a longer existing file", open(stale, "rb").read())):
+            rep.count("npy-output-destinations", "%s shape %s" % (name, fmt(sh)), True)
+            if got.hex() != want:
+                rep.fail(kind="property-oracle", cls="npy-writer:destination", case="view -O npy, %s, shape %s" % (name, fmt(sh)), argv=["sfs"] + oj[4 * k + 2][0],
+                         stdin=oj[4 * k][1].decode(), observed="%d bytes: %s..." % (len(got), got.hex()[:200]), expected="%d bytes" % (len(want) // 2),
+                         detail="npy output to %s is not exactly header + prod(shape) doubles as the library writes them" % name)
     # writer: numpy must load what sfs writes, for every header length modulo 64
     shapes, residues = shapes_all_header_lengths(rng)
     wcases = []
@@ -117,4 +139,4 @@ def check(rep, tier, seed):
 
 
 if __name__ == "__main__":
-    sys.exit(standard_main("C15", check, sys.argv[1:], RULE))
+    sys.exit(standard_main("C15", check, sys.argv[1:], RULE, needs_cli=True))
